@@ -116,15 +116,12 @@ func ruleShortcut(p *core.Program) []core.Obligation {
 			}
 			k++
 			key := fmt.Sprintf("%s early return #%d", core.FuncName(fn), k)
-			flagAware := dependsOnBoolParam(fn, iff.Cond)
+			// the flags the return itself is conditioned on (directly or through enclosing branches)
+			retFlags := boolParamsOf(fn, iff.Cond)
 			for _, c := range controllingConds(ret) {
-				if dependsOnBoolParam(fn, c) {
-					flagAware = true // e.g. `if !without && len(grouping) == 0`
+				for pr := range boolParamsOf(fn, c) {
+					retFlags[pr] = true
 				}
-			}
-			if flagAware {
-				obs = append(obs, core.Ob(rule, key, p.Pos(ret.Pos()), core.FuncName(fn), core.Held, "guarded by a flag of the function"))
-				return
 			}
 			// the other successor of the guard: can it reach a flag-guarded mutation that this return has not passed?
 			var other *ssa.BasicBlock
@@ -138,17 +135,23 @@ func ruleShortcut(p *core.Program) []core.Obligation {
 				if other == nil || !(other == m.Block() || core.Reaches(other, m.Block())) || core.BlockDominates(m.Block(), b) {
 					continue
 				}
-				// every flag decision that controls m must have been taken before the guard
+				// every flag that decides about m must either have been decided before the guard or be part of the return's own condition
 				for _, fb := range fn.Blocks {
 					fi := core.IfOf(fb)
-					if fi == nil || !dependsOnBoolParam(fn, fi.Cond) {
+					if fi == nil {
 						continue
 					}
-					if !(core.BranchDominates(fb, 0, m.Block()) || core.BranchDominates(fb, 1, m.Block())) {
+					fparams := boolParamsOf(fn, fi.Cond)
+					if len(fparams) == 0 || !(core.BranchDominates(fb, 0, m.Block()) || core.BranchDominates(fb, 1, m.Block())) {
 						continue
 					}
-					if !fb.Dominates(g) {
-						bad = p.Pos(m.Pos())
+					if fb.Dominates(g) {
+						continue
+					}
+					for pr := range fparams {
+						if !retFlags[pr] {
+							bad = p.Pos(m.Pos())
+						}
 					}
 				}
 			}
@@ -643,4 +646,18 @@ func closesWorkerOutput(c *ssa.Call) bool {
 	}
 	l := core.Deref(c.Call.Args[0])
 	return l != nil && core.IsFieldOf(l, modWorker, "Worker", "output")
+}
+
+// boolParamsOf returns the bool parameters of fn in the slice of cond.
+func boolParamsOf(fn *ssa.Function, cond ssa.Value) map[*ssa.Parameter]bool {
+	out := map[*ssa.Parameter]bool{}
+	core.BackSlice(cond, func(x ssa.Value) bool {
+		if pr, ok := x.(*ssa.Parameter); ok && pr.Parent() == fn {
+			if b, ok := pr.Type().Underlying().(*types.Basic); ok && b.Kind() == types.Bool {
+				out[pr] = true
+			}
+		}
+		return true
+	})
+	return out
 }
